@@ -543,4 +543,227 @@ example : ChainOK cpRootE ([cpHiddenE] ++ [cpLeafE]) := by
   simp only [List.cons_append, List.nil_append, ChainOK]
   exact ⟨rfl, by decide, rfl, by decide, trivial⟩
 
+/-! ## `goto_next_sibling` keeps the parent and the depth -/
+
+/-- Shape of what the forward `gotoSiblingInternal` returns: it pops the top entry and a run of hidden entries
+(a visible one below the original top ends the search), then pushes one sibling entry. -/
+theorem next_internal_shape (lang : Lang) (initialSize : Nat) : ∀ (stack : List Entry), Linked stack →
+    stack.length ≤ initialSize →
+    (gotoSiblingInternal lang (iterNext lang) initialSize stack).1 ≠ Step.none →
+    ∃ t hs below e, stack = t :: (hs ++ below) ∧ below ≠ [] ∧ HiddenOver lang hs below ∧
+      (stack.length < initialSize → isEntryVisible lang t (hs ++ below).head? = false) ∧
+      (gotoSiblingInternal lang (iterNext lang) initialSize stack).2 = e :: below ∧
+      ((gotoSiblingInternal lang (iterNext lang) initialSize stack).1 = Step.visible → isEntryVisible lang e below.head? = true) ∧
+      ((gotoSiblingInternal lang (iterNext lang) initialSize stack).1 = Step.hidden → isEntryVisible lang e below.head? = false)
+  | [], _, _, hne => by simp [gotoSiblingInternal] at hne
+  | [e], _, _, hne => by simp [gotoSiblingInternal] at hne
+  | entry :: parent :: rest, hl, hlen, hne => by
+    obtain ⟨⟨hchild, hsi⟩, hlrest⟩ := hl
+    have hkne : parent.t.kids.isEmpty = false := by
+      cases hk : parent.t.kids with
+      | nil => rw [hk] at hchild; simp at hchild
+      | cons a b => rfl
+    have hpar := iterateChildren_parent lang parent rest.head?
+    have hval : (iterateChildren lang parent rest.head?).valid = true := by
+      unfold iterateChildren; simp [hkne]
+    have hc' : ({ valid := (iterateChildren lang parent rest.head?).valid, parent := (iterateChildren lang parent rest.head?).parent, pos := entry.pos, childIndex := entry.childIndex, si := entry.si, descIdx := entry.descIdx } : Iter).parent.kids[({ valid := (iterateChildren lang parent rest.head?).valid, parent := (iterateChildren lang parent rest.head?).parent, pos := entry.pos, childIndex := entry.childIndex, si := entry.si, descIdx := entry.descIdx } : Iter).childIndex]? = some entry.t := by
+      simp only [hpar]; exact hchild
+    have hpar' : ({ valid := (iterateChildren lang parent rest.head?).valid, parent := (iterateChildren lang parent rest.head?).parent, pos := entry.pos, childIndex := entry.childIndex, si := entry.si, descIdx := entry.descIdx } : Iter).parent = parent.t := hpar
+    have hsi' : ({ valid := (iterateChildren lang parent rest.head?).valid, parent := (iterateChildren lang parent rest.head?).parent, pos := entry.pos, childIndex := entry.childIndex, si := entry.si, descIdx := entry.descIdx } : Iter).si = entry.si := rfl
+    have hval' : ({ valid := (iterateChildren lang parent rest.head?).valid, parent := (iterateChildren lang parent rest.head?).parent, pos := entry.pos, childIndex := entry.childIndex, si := entry.si, descIdx := entry.descIdx } : Iter).valid = true := hval
+    unfold gotoSiblingInternal at hne ⊢
+    dsimp only at hne ⊢
+    generalize ({ valid := (iterateChildren lang parent rest.head?).valid, parent := (iterateChildren lang parent rest.head?).parent, pos := entry.pos, childIndex := entry.childIndex, si := entry.si, descIdx := entry.descIdx } : Iter) = itx at hc' hpar' hsi' hval' hne ⊢
+    rw [iterNext_some lang itx entry.t hval' hc'] at hne ⊢
+    dsimp only at hne ⊢
+    have hvis : visOf lang itx entry.t = isEntryVisible lang entry (some parent) := by
+      rw [visOf_eq lang itx entry parent hpar' hsi', isEntryVisible_eq]
+    by_cases hbr : (visOf lang itx entry.t && decide ((parent :: rest).length + 1 < initialSize)) = true
+    · rw [if_pos hbr] at hne; exact absurd rfl hne
+    · rw [if_neg hbr] at hne ⊢
+      have hentryHidden : (entry :: parent :: rest).length < initialSize → isEntryVisible lang entry (some parent) = false := by
+        intro hlt
+        rw [← hvis]
+        cases hv : visOf lang itx entry.t with
+        | false => rfl
+        | true =>
+          exfalso; apply hbr
+          simp only [hv, Bool.true_and, decide_eq_true_eq]
+          simpa using hlt
+      rw [scanSiblings_eq] at hne ⊢
+      have hstep := stepOK_first lang parent (parent.t.kids.length + 2) (nextIter lang itx entry.t) (by rw [nextIter_parent]; exact hpar')
+      generalize firstChildInternal.go lang (parent.t.kids.length + 2) (nextIter lang itx entry.t) = r at hstep hne ⊢
+      obtain ⟨step, eo⟩ := r
+      have hrec : (gotoSiblingInternal lang (iterNext lang) initialSize (parent :: rest)).1 ≠ Step.none →
+          ∃ t hs below e, entry :: parent :: rest = t :: (hs ++ below) ∧ below ≠ [] ∧ HiddenOver lang hs below ∧
+            ((entry :: parent :: rest).length < initialSize → isEntryVisible lang t (hs ++ below).head? = false) ∧
+            (gotoSiblingInternal lang (iterNext lang) initialSize (parent :: rest)).2 = e :: below ∧
+            ((gotoSiblingInternal lang (iterNext lang) initialSize (parent :: rest)).1 = Step.visible → isEntryVisible lang e below.head? = true) ∧
+            ((gotoSiblingInternal lang (iterNext lang) initialSize (parent :: rest)).1 = Step.hidden → isEntryVisible lang e below.head? = false) := by
+        intro hne'
+        obtain ⟨t', hs', below, e, h1, h2, h3, h4, h5, h6, h7⟩ :=
+          next_internal_shape lang initialSize (parent :: rest) hlrest (by simp at hlen ⊢; omega) hne'
+        have hlt : (parent :: rest).length < initialSize := by simp at hlen ⊢; omega
+        have ht' : t' = parent := by simp at h1; exact h1.1.symm
+        refine ⟨entry, parent :: hs', below, e, ?_, h2, ?_, ?_, h5, h6, h7⟩
+        · simp at h1 ⊢; exact h1.2
+        · simp only [HiddenOver]
+          refine ⟨?_, h3⟩
+          have := h4 hlt
+          rw [ht'] at this; exact this
+        · intro hl2
+          have := hentryHidden hl2
+          simpa using this
+      cases step <;> cases eo
+      case visible.some e =>
+        refine ⟨entry, [], parent :: rest, e, rfl, by simp, trivial, ?_, rfl, ?_, ?_⟩
+        · intro hl2; simpa using hentryHidden hl2
+        · intro _; simpa using (hstep e).1 rfl
+        · intro h; simp at h
+      case hidden.some e =>
+        refine ⟨entry, [], parent :: rest, e, rfl, by simp, trivial, ?_, rfl, ?_, ?_⟩
+        · intro hl2; simpa using hentryHidden hl2
+        · intro h; simp at h
+        · intro _; simpa using (hstep e).2 rfl
+      all_goals exact hrec hne
+
+/-- A failing descent leaves a run of hidden entries over the old stack (the C function is only called where it
+cannot fail: after a hidden step with `visible_child_count > 0`). -/
+theorem gotoChild_shape_fail (lang : Lang) (last : Bool) : ∀ (fuel : Nat) (stack : List Entry),
+    (gotoChild lang last fuel stack).1 = false →
+    ∃ hs, (gotoChild lang last fuel stack).2 = hs ++ stack ∧ HiddenOver lang hs stack
+  | 0, stack, _ => ⟨[], by simp [gotoChild], trivial⟩
+  | fuel + 1, [], _ => ⟨[], by simp [gotoChild], trivial⟩
+  | fuel + 1, top :: rest, h => by
+    unfold gotoChild at h ⊢
+    simp only at h ⊢
+    have hok := stepOK_child lang last top rest.head?
+    generalize (if last then lastChildInternal lang top rest.head? else firstChildInternal lang top rest.head?) = r at h hok ⊢
+    obtain ⟨st, eo⟩ := r
+    cases st <;> cases eo
+    case hidden.some e =>
+      simp only at h ⊢
+      obtain ⟨hs, h1, h2⟩ := gotoChild_shape_fail lang last fuel (e :: top :: rest) h
+      refine ⟨hs ++ [e], by simpa using h1, ?_⟩
+      apply hiddenOver_append
+      · simpa using h2
+      · simp only [HiddenOver, List.nil_append, List.head?_cons, and_true]
+        exact (hok e).2 rfl
+    case visible.some e => simp at h
+    all_goals exact ⟨[], by simp, trivial⟩
+
+theorem parentGo_hidden_cons (lang : Lang) (e : Entry) (below : List Entry) (h : isEntryVisible lang e below.head? = false) :
+    gotoParent.go lang (e :: below) = gotoParent.go lang below := by
+  simp [gotoParent.go, h]
+
+/-- **next_sibling_keeps_parent.**  For every linked stack: after a successful `goto_next_sibling`, `goto_parent`
+leads to the very same stack as `goto_parent` from the old position — the two nodes have the same parent — however
+many hidden levels the move went up and down. -/
+theorem next_sibling_keeps_parent (lang : Lang) (c : Cursor) (hl : Linked c.stack) (h : (gotoNextSibling lang c).1 = true) :
+    gotoParent.go lang (gotoNextSibling lang c).2.stack.tail = gotoParent.go lang c.stack.tail := by
+  unfold gotoNextSibling at h ⊢
+  have hs := next_internal_shape lang c.stack.length c.stack hl (Nat.le_refl _)
+  generalize hr : gotoSiblingInternal lang (iterNext lang) c.stack.length c.stack = r at hs h ⊢
+  obtain ⟨step, st⟩ := r
+  cases step with
+  | none => simp at h
+  | visible =>
+    obtain ⟨t, hs', below, e, h1, _, h3, _, h5, _, _⟩ := hs (by simp)
+    simp only at h5 ⊢
+    rw [h5, h1]
+    simp only [List.tail_cons]
+    exact (parentGo_skip lang hs' below h3).symm
+  | hidden =>
+    obtain ⟨t, hs', below, e, h1, _, h3, _, h5, _, h7⟩ := hs (by simp)
+    simp only at h5 h7 ⊢
+    have he := h7 trivial
+    rw [h5, h1]
+    simp only [List.tail_cons]
+    rw [parentGo_skip lang hs' below h3]
+    cases hb : (gotoChild lang false (topSize (e :: below)) (e :: below)).1 with
+    | true =>
+      obtain ⟨e', hs2, g1, g2, _⟩ := gotoChild_shape lang false _ (e :: below) hb
+      rw [g1]
+      simp only [List.tail_cons]
+      rw [parentGo_skip lang hs2 (e :: below) g2, parentGo_hidden_cons lang e below he]
+    | false =>
+      obtain ⟨hs2, g1, g2⟩ := gotoChild_shape_fail lang false _ (e :: below) hb
+      rw [g1]
+      cases hs2 with
+      | nil => simp only [List.nil_append, List.tail_cons]
+      | cons x xs =>
+        simp only [List.cons_append, List.tail_cons]
+        simp only [HiddenOver] at g2
+        rw [parentGo_skip lang xs (e :: below) g2.2, parentGo_hidden_cons lang e below he]
+
+theorem visibleAbove_push (lang : Lang) (e : Entry) (hs below : List Entry) (hne : below ≠ []) (hh : HiddenOver lang hs below)
+    (he : isEntryVisible lang e (hs ++ below).head? = true) :
+    visibleAbove lang (e :: (hs ++ below)) = 1 + visibleAbove lang below := by
+  have hne2 : hs ++ below ≠ [] := by simp [hne]
+  obtain ⟨q, qs, hq⟩ : ∃ q qs, hs ++ below = q :: qs := by
+    cases hx : hs ++ below with
+    | nil => exact absurd hx hne2
+    | cons q qs => exact ⟨q, qs, rfl⟩
+  rw [hq] at he
+  simp only [List.head?_cons] at he
+  rw [hq]
+  simp only [visibleAbove, he, if_true]
+  rw [← hq, visibleAbove_hidden lang hs below hne hh]
+
+/-- **next_sibling_depth.**  Under `StackOK` (summaries: a hidden step is only taken into a node with visible
+children, so the descent succeeds) a successful `goto_next_sibling` from a visible node ends on a visible node at
+the same depth. -/
+theorem next_sibling_depth (lang : Lang) (c : Cursor) (hok : StackOK lang c.stack) (hl : Linked c.stack)
+    (hv : TopVisible lang c.stack) (h : (gotoNextSibling lang c).1 = true) :
+    TopVisible lang (gotoNextSibling lang c).2.stack ∧ currentDepth lang (gotoNextSibling lang c).2 = currentDepth lang c := by
+  have hspec := sibling_internal_spec lang c.stack.length c.stack true hok (fun _ => rfl) (fun h => by simp at h)
+  unfold gotoNextSibling at h ⊢
+  have hs := next_internal_shape lang c.stack.length c.stack hl (Nat.le_refl _)
+  generalize hr : gotoSiblingInternal lang (iterNext lang) c.stack.length c.stack = r at hs h hspec ⊢
+  obtain ⟨step, st⟩ := r
+  cases step with
+  | none => simp at h
+  | visible =>
+    obtain ⟨t, hs', below, e, h1, h2, h3, _, h5, h6, _⟩ := hs (by simp)
+    simp only at h5 h6 ⊢
+    have he := h6 trivial
+    rw [h1] at hv
+    simp only [TopVisible] at hv
+    refine ⟨by rw [h5]; simpa [TopVisible] using he, ?_⟩
+    rw [depth_spec, depth_spec, h5, h1, visibleAbove_push lang t hs' below h2 h3 hv]
+    exact visibleAbove_push lang e [] below h2 trivial (by simpa using he)
+  | hidden =>
+    obtain ⟨t, hs', below, e, h1, h2, h3, _, h5, _, h7⟩ := hs (by simp)
+    simp only at h5 h7 hspec ⊢
+    have he := h7 trivial
+    obtain ⟨e0, st', hst, hvcc, hsum, ⟨ps, hsh⟩, _⟩ := hspec.2.1 trivial
+    rw [h5] at hst
+    have hee : e0 = e := by simp at hst; exact hst.1.symm
+    subst hee
+    have hfc := cursor_first_child_spec lang (topSize (e0 :: below)) e0 below ps hsum hsh (by simp [topSize])
+    have hne : enumChildren lang e0.t ≠ [] := by
+      intro h0
+      have hcnt := (summarize_counts lang e0.t ps hsum hsh).1
+      rw [h0] at hcnt
+      unfold vcc at hvcc
+      split at hvcc
+      · omega
+      · simp at hcnt; omega
+    have hok1 : (gotoChild lang false (topSize (e0 :: below)) (e0 :: below)).1 = true := by
+      cases hb : (gotoChild lang false (topSize (e0 :: below)) (e0 :: below)).1 with
+      | true => rfl
+      | false => exact absurd (hfc.2 hb) hne
+    obtain ⟨e', hs2, g1, g2, g3⟩ := gotoChild_shape lang false _ (e0 :: below) hok1
+    rw [h5, g1]
+    rw [h1] at hv
+    simp only [TopVisible] at hv
+    refine ⟨by simpa [TopVisible] using g3, ?_⟩
+    rw [depth_spec, depth_spec, h1, visibleAbove_push lang t hs' below h2 h3 hv]
+    have hh2 : HiddenOver lang (hs2 ++ [e0]) below := by
+      apply hiddenOver_append
+      · simpa using g2
+      · simp only [HiddenOver, List.nil_append, and_true]; exact he
+    have := visibleAbove_push lang e' (hs2 ++ [e0]) below h2 hh2 (by simpa using g3)
+    simpa using this
+
 end TsVerif.C06
